@@ -662,6 +662,7 @@ impl<T: Qcow2IoOps> Qcow2Dev<T> {
             self.do_write(l2_entry, offset, buf).await?;
         } else {
             let writes = FuturesUnordered::new();
+            let mut cow = Vec::new();
             let mut remain = buf;
             let mut idx = 0;
             let l2_entries = self.populate_write_mappings(offset, len).await?;
@@ -671,13 +672,35 @@ impl<T: Qcow2IoOps> Qcow2Dev<T> {
                 let (iobuf, b) = remain.split_at(curr_len);
                 remain = b;
 
-                writes.push(self.do_write(l2_entries[idx], offset, iobuf));
+                // A piece that goes through COW writes its L2 slice in
+                // place. That slice also holds the mappings which
+                // populate_write_mappings() has just made for the other
+                // clusters of this request: their clusters have to be
+                // zeroed and written before such a mapping may reach the
+                // disk, so the COW pieces run after the others.
+                let split = SplitGuestOffset(info.cluster_round_down(offset));
+                if l2_entries[idx].into_mapping(info, &split).source == MappingSource::DataFile {
+                    writes.push(self.do_write(l2_entries[idx], offset, iobuf));
+                } else {
+                    cow.push((l2_entries[idx], offset, iobuf));
+                }
 
                 offset += curr_len as u64;
                 len -= curr_len;
                 idx += 1;
             }
 
+            let res: Vec<_> = writes.collect().await;
+            for r in res {
+                if r.is_err() {
+                    return Err("write_at: one write failed".into());
+                }
+            }
+
+            let writes = FuturesUnordered::new();
+            for (l2_e, off, iobuf) in cow {
+                writes.push(self.do_write(l2_e, off, iobuf));
+            }
             let res: Vec<_> = writes.collect().await;
             for r in res {
                 if r.is_err() {
